@@ -22,52 +22,105 @@ fn dec(enc: &Encoding, bytes: &[u8]) -> Value {
     }
 }
 
-/// variant: bits 0-1 = Encoding entry (absent / Identity-H / Identity-V), bit 2 = compressed stream
-fn run_case(text: &[u8], codes: &[Vec<u8>], variant: usize) -> Value {
+/// The /Encoding forms that may stand next to /ToUnicode (CMap!FontForms) and the font Subtype that goes with them.
+const FONT_FORMS: [&str; 17] = [
+    "absent", "Identity-H", "Identity-V",
+    "StandardEncoding", "MacRomanEncoding", "WinAnsiEncoding", "MacExpertEncoding",
+    "UniJIS-UTF16-H", "90ms-RKSJ-H", "UniGB-UCS2-H", "UniGB-UTF16-H", "GBK-EUC-H", "Custom-Name",
+    "dict.diff", "dict.base.diff", "dictref", "cmapstream",
+];
+
+fn name(n: &str) -> Object {
+    Object::Name(n.as_bytes().to_vec())
+}
+
+fn font_dict(doc: &mut Document, form: &str, cmap_id: lopdf::ObjectId) -> Dictionary {
+    let mut font = Dictionary::new();
+    font.set("Type", name("Font"));
+    font.set("BaseFont", name("VerifFont"));
+    let differences = || Object::Array(vec![Object::Integer(65), name("A"), name("Aacute"), Object::Integer(200), name("fi")]);
+    let enc_dict = |base: bool| {
+        let mut d = Dictionary::new();
+        d.set("Type", name("Encoding"));
+        if base {
+            d.set("BaseEncoding", name("WinAnsiEncoding"));
+        }
+        d.set("Differences", differences());
+        d
+    };
+    let simple = match form {
+        "absent" | "Identity-H" | "Identity-V" => false,
+        "StandardEncoding" | "MacRomanEncoding" | "WinAnsiEncoding" | "MacExpertEncoding" => true,
+        "dict.diff" | "dict.base.diff" | "dictref" => true,
+        _ => false,
+    };
+    font.set("Subtype", name(if simple { "Type1" } else { "Type0" }));
+    match form {
+        "absent" => {}
+        "dict.diff" => font.set("Encoding", Object::Dictionary(enc_dict(false))),
+        "dict.base.diff" => font.set("Encoding", Object::Dictionary(enc_dict(true))),
+        "dictref" => {
+            let id = doc.add_object(Object::Dictionary(enc_dict(true)));
+            font.set("Encoding", Object::Reference(id));
+        }
+        "cmapstream" => {
+            // an embedded CMap stream as the font's /Encoding (Type0 font)
+            let mut d = Dictionary::new();
+            d.set("Type", name("CMap"));
+            d.set("CMapName", name("Verif-H"));
+            let body = b"/CIDInit /ProcSet findresource begin\n12 dict begin\nbegincmap\n/CMapName /Verif-H def\n/CMapType 1 def\n1 begincodespacerange\n<0000> <FFFF>\nendcodespacerange\n1 begincidrange\n<0000> <FFFF> 0\nendcidrange\nendcmap\nCMapName currentdict /CMap defineresource pop\nend\nend\n";
+            let id = doc.add_object(Object::Stream(Stream::new(d, body.to_vec())));
+            font.set("Encoding", Object::Reference(id));
+        }
+        n => font.set("Encoding", name(n)),
+    }
+    font.set("ToUnicode", Object::Reference(cmap_id));
+    font
+}
+
+/// Store `text` as the ToUnicode stream of a font whose /Encoding has the given form, ask lopdf for the
+/// font's encoding and decode every code and the whole string with whatever it returned.
+fn run_case(text: &[u8], codes: &[Vec<u8>], form: &str, compress: bool) -> Value {
     let mut doc = Document::with_version("1.7");
     let mut stream = Stream::new(Dictionary::new(), text.to_vec());
-    if (variant >> 2) & 1 == 1 {
+    if compress {
         let _ = stream.compress();
     }
     let cmap_id = doc.add_object(Object::Stream(stream));
-    let mut font = Dictionary::new();
-    font.set("Type", Object::Name(b"Font".to_vec()));
-    font.set("Subtype", Object::Name(b"Type0".to_vec()));
-    font.set("BaseFont", Object::Name(b"VerifFont".to_vec()));
-    match variant % 3 {
-        1 => font.set("Encoding", Object::Name(b"Identity-H".to_vec())),
-        2 => font.set("Encoding", Object::Name(b"Identity-V".to_vec())),
-        _ => {}
-    }
-    font.set("ToUnicode", Object::Reference(cmap_id));
+    let font = font_dict(&mut doc, form, cmap_id);
     let enc = match guarded(|| font.get_font_encoding(&doc)) {
         Ok(Ok(e)) => e,
         Ok(Err(e)) => {
             let mut m = format!("{e}");
             m.truncate(160);
-            return json!({"err": format!("error: {m}"), "per": [], "whole": {"p": 3, "chars": [], "msg": ""}});
+            return json!({"err": format!("error: {m}"), "encv": "", "per": [], "whole": {"p": 3, "chars": [], "msg": ""}});
         }
-        Err(m) => return json!({"err": format!("panic: {m}"), "per": [], "whole": {"p": 3, "chars": [], "msg": ""}}),
+        Err(m) => return json!({"err": format!("panic: {m}"), "encv": "", "per": [], "whole": {"p": 3, "chars": [], "msg": ""}}),
     };
-    if !matches!(enc, Encoding::UnicodeMapEncoding(_)) {
-        return json!({"err": "not a UnicodeMapEncoding", "per": [], "whole": {"p": 3, "chars": [], "msg": ""}});
-    }
+    let encv = match &enc {
+        Encoding::OneByteEncoding(_) => "OneByteEncoding",
+        Encoding::SimpleEncoding(_) => "SimpleEncoding",
+        Encoding::UnicodeMapEncoding(_) => "UnicodeMapEncoding",
+    };
     let per: Vec<Value> = codes.iter().map(|c| dec(&enc, c)).collect();
     let all: Vec<u8> = codes.iter().flatten().copied().collect();
     let whole = dec(&enc, &all);
-    json!({"err": "", "per": per, "whole": whole})
+    json!({"err": "", "encv": encv, "per": per, "whole": whole})
 }
 
 fn replay(args: &[String]) {
     let cases = read_ndjson(&arg(args, "--in").unwrap());
     let mut out = NdjsonOut::create(&arg(args, "--out").unwrap());
     for (i, c) in cases.iter().enumerate() {
-        let text = c["t"].as_str().expect("program text").as_bytes().to_vec();
+        // "~" in the program text emitted by TLC stands for the byte 00 (CMap!AtomText)
+        let text: Vec<u8> = c["t"].as_str().expect("program text").bytes().map(|b| if b == b'~' { 0 } else { b }).collect();
         let codes: Vec<Vec<u8>> = c["c"]
             .as_array()
             .map(|a| a.iter().map(|x| x.as_array().unwrap().iter().map(|b| b.as_u64().unwrap() as u8).collect()).collect())
             .unwrap_or_default();
-        let mut r = run_case(&text, &codes, i % 6);
+        let form = c["f"].as_str().expect("font form");
+        assert!(FONT_FORMS.contains(&form), "unknown font form {form}");
+        let mut r = run_case(&text, &codes, form, i % 2 == 1);
         r["i"] = json!(i);
         out.put(&r);
     }
@@ -372,181 +425,239 @@ fn gen_table(rng: &mut Rng, big: bool) -> (Vec<Space>, Vec<Def>) {
 }
 
 // ------------------------------------------------------------------ rendering
+//
+// Mirrors CMap!ProgramToks: the program is a token sequence with a classified gap after every token.
+// A style (CMap!sty = [k, a, b, s]) departs from what lopdf's grammar takes everywhere in ONE respect;
+// everything else is the "tolerated" random variation (hex case, blanks inside entries, line ends and
+// comments after them).
+
+#[derive(Clone, Debug)]
+struct Sty {
+    k: String,
+    a: String,
+    b: String,
+    s: Vec<String>,
+}
+
+fn canon() -> Sty {
+    Sty { k: "canon".into(), a: String::new(), b: String::new(), s: vec![] }
+}
+
+fn sty_json(s: &Sty) -> Value {
+    json!({"k": s.k, "a": s.a, "b": s.b, "s": s.s})
+}
+
+fn atom_bytes(a: &str) -> &'static [u8] {
+    match a {
+        "sp" => b" ",
+        "tab" => b"\t",
+        "lf" => b"\n",
+        "cr" => b"\r",
+        "crlf" => b"\r\n",
+        "ff" => b"\x0c",
+        "nul" => b"\0",
+        "cmt" => b"%c\n",
+        _ => panic!("unknown separator atom {a}"),
+    }
+}
 
 struct Style {
     hexcase: usize, // 0 upper, 1 lower, 2 mixed
-    wild: bool,     // generous white-space
-    /// grammar probe: separator between array elements other than blanks/tabs ("" or a line end) -
-    /// legal PostScript (the strings are self-delimiting) that lopdf's grammar is known to reject
-    arr_sep: Option<&'static [u8]>,
+    wild: bool,     // generous (tolerated) white-space
+    sty: Sty,
 }
 
-fn hex_byte(rng: &mut Rng, st: &Style, b: u8, out: &mut Vec<u8>) {
-    for d in [b >> 4, b & 15] {
-        let up = match st.hexcase {
-            0 => true,
-            1 => false,
-            _ => rng.chance(1, 2),
-        };
-        let c = if d < 10 { b'0' + d } else if up { b'A' + d - 10 } else { b'a' + d - 10 };
-        out.push(c);
-    }
+/// what lopdf's grammar has at a gap as the code is, i.e. which random separators are "tolerated" there
+#[derive(Clone, Copy)]
+enum Dflt {
+    Sp0,
+    Sp1,
+    Eol,
 }
 
 fn code_bytes(len: usize, code: u32) -> Vec<u8> {
     (0..len).map(|i| (code >> (8 * (len - 1 - i))) as u8).collect()
 }
 
-fn code_tok(rng: &mut Rng, st: &Style, len: usize, code: u32, out: &mut Vec<u8>) {
-    out.push(b'<');
-    for b in code_bytes(len, code) {
-        hex_byte(rng, st, b, out);
-    }
-    out.push(b'>');
+fn is_delim(b: u8) -> bool {
+    b"()<>[]{}/%".contains(&b)
 }
 
-fn str_tok(rng: &mut Rng, st: &Style, us: &[u16], out: &mut Vec<u8>) {
-    out.push(b'<');
-    for (i, u) in us.iter().enumerate() {
-        if i > 0 && st.wild && rng.chance(1, 3) {
-            out.extend_from_slice(*rng.pick(&[&b" "[..], b"  ", b"\t", b"\n"]));
-        }
-        hex_byte(rng, st, (u >> 8) as u8, out);
-        hex_byte(rng, st, (u & 255) as u8, out);
-    }
-    if st.wild && rng.chance(1, 8) {
-        out.push(b' ');
-    }
-    out.push(b'>');
+struct Em<'a> {
+    out: Vec<u8>,
+    rng: &'a mut Rng,
+    st: &'a Style,
+    pending: Option<(bool, &'static str, Dflt)>,
 }
 
-/// zero or more blanks between the tokens of one entry
-fn sp0(rng: &mut Rng, st: &Style, out: &mut Vec<u8>) {
-    if st.wild {
-        out.extend_from_slice(*rng.pick(&[&b""[..], b" ", b" ", b"  ", b"\t", b" \t"]));
-    } else {
-        out.push(b' ');
-    }
-}
-
-/// one or more blanks (array elements, operator arguments)
-fn sp1(rng: &mut Rng, st: &Style, out: &mut Vec<u8>) {
-    if st.wild {
-        out.extend_from_slice(*rng.pick(&[&b" "[..], b" ", b"  ", b"\t", b" \t "]));
-    } else {
-        out.push(b' ');
-    }
-}
-
-/// at least one white-space item, ending the line most of the time
-fn eol(rng: &mut Rng, st: &Style, out: &mut Vec<u8>) {
-    if st.wild {
-        out.extend_from_slice(*rng.pick(&[
-            &b"\n"[..],
-            b"\n",
-            b"\r\n",
-            b"\r",
-            b" \n",
-            b"\n\n",
-            b"\t\r\n",
-            b" ",
-            b"\n% a comment <41> <0041>\n",
-            b" %c\r\n  ",
-            b"\n \t",
-        ]));
-    } else {
-        out.push(b'\n');
-    }
-}
-
-fn entry(rng: &mut Rng, st: &Style, d: &Def, out: &mut Vec<u8>) {
-    if st.wild && rng.chance(1, 4) {
-        out.extend_from_slice(*rng.pick(&[&b" "[..], b"\t", b"  "]));
-    }
-    code_tok(rng, st, d.len, d.lo, out);
-    sp0(rng, st, out);
-    if !d.char_kind {
-        code_tok(rng, st, d.len, d.hi, out);
-        sp0(rng, st, out);
-    }
-    match &d.t {
-        Tgt::Str(u) => str_tok(rng, st, u, out),
-        Tgt::Arr(a) => {
-            out.push(b'[');
-            if st.wild && rng.chance(1, 2) {
-                out.push(b' ');
+impl Em<'_> {
+    fn hex_sep(&mut self, w: &str, p: &str) {
+        let sty = &self.st.sty;
+        if sty.k == "hex" && sty.a == w && sty.b == p {
+            for a in &sty.s {
+                self.out.extend_from_slice(atom_bytes(a));
             }
-            for (i, e) in a.iter().enumerate() {
-                if i > 0 {
-                    match st.arr_sep {
-                        Some(sep) => out.extend_from_slice(sep),
-                        None => sp1(rng, st, out),
-                    }
+        }
+    }
+    fn hex_byte(&mut self, b: u8, w: &str) {
+        for (i, d) in [b >> 4, b & 15].into_iter().enumerate() {
+            if i == 1 {
+                self.hex_sep(w, "nib");
+            }
+            let up = match self.st.hexcase {
+                0 => true,
+                1 => false,
+                _ => self.rng.chance(1, 2),
+            };
+            let c = if d < 10 { b'0' + d } else if up { b'A' + d - 10 } else { b'a' + d - 10 };
+            self.out.push(c);
+        }
+    }
+    fn flush_gap(&mut self, next_first: Option<u8>) {
+        if let Some((prev_delim, class, dflt)) = self.pending.take() {
+            let sd = prev_delim || next_first.map(is_delim).unwrap_or(true);
+            let sty = &self.st.sty;
+            if sty.k == "gap" && sty.a == class && (!sty.s.is_empty() || sd) {
+                for a in &sty.s {
+                    self.out.extend_from_slice(atom_bytes(a));
                 }
-                str_tok(rng, st, e, out);
+                return;
             }
-            if st.wild && rng.chance(1, 2) {
-                out.push(b' ');
-            }
-            out.push(b']');
+            let wild = self.st.wild;
+            let pick: &[u8] = match dflt {
+                Dflt::Sp0 if wild => *self.rng.pick(&[&b""[..], b" ", b" ", b"  ", b"\t", b" \t"]),
+                Dflt::Sp1 if wild => *self.rng.pick(&[&b" "[..], b" ", b"  ", b"\t", b" \t "]),
+                Dflt::Eol if wild => *self.rng.pick(&[
+                    &b"\n"[..],
+                    b"\n",
+                    b"\r\n",
+                    b"\r",
+                    b" \n",
+                    b"\n\n",
+                    b"\t\r\n",
+                    b" ",
+                    b"\n% a comment <41> <0041>\n",
+                    b" %c\r\n  ",
+                    b"\n \t",
+                ]),
+                Dflt::Eol => b"\n",
+                _ => b" ",
+            };
+            self.out.extend_from_slice(pick);
         }
     }
-    eol(rng, st, out);
+    /// a token followed by a gap of the given class
+    fn tok(&mut self, text: &[u8], class: &'static str, dflt: Dflt) {
+        self.flush_gap(text.first().copied());
+        self.out.extend_from_slice(text);
+        self.pending = Some((text.last().map(|b| is_delim(*b)).unwrap_or(false), class, dflt));
+    }
+    fn code(&mut self, len: usize, code: u32, class: &'static str, dflt: Dflt) {
+        self.flush_gap(Some(b'<'));
+        self.out.push(b'<');
+        self.hex_sep("src", "lead");
+        for (i, b) in code_bytes(len, code).into_iter().enumerate() {
+            if i > 0 {
+                self.hex_sep("src", "byte");
+            }
+            self.hex_byte(b, "src");
+        }
+        self.hex_sep("src", "trail");
+        self.out.push(b'>');
+        self.pending = Some((true, class, dflt));
+    }
+    fn units(&mut self, us: &[u16], class: &'static str, dflt: Dflt) {
+        self.flush_gap(Some(b'<'));
+        self.out.push(b'<');
+        self.hex_sep("tgt", "lead");
+        for (i, u) in us.iter().enumerate() {
+            if i > 0 {
+                let styled = self.st.sty.k == "hex" && self.st.sty.a == "tgt" && self.st.sty.b == "unit";
+                if styled {
+                    self.hex_sep("tgt", "unit");
+                } else if self.st.wild && self.rng.chance(1, 3) {
+                    // tolerated: white space after a complete unit
+                    let ws: &[u8] = *self.rng.pick(&[&b" "[..], b"  ", b"\t", b"\n"]);
+                    self.out.extend_from_slice(ws);
+                }
+            }
+            self.hex_byte((u >> 8) as u8, "tgt");
+            self.hex_sep("tgt", "byte");
+            self.hex_byte((u & 255) as u8, "tgt");
+        }
+        let styled_trail = self.st.sty.k == "hex" && self.st.sty.a == "tgt" && self.st.sty.b == "trail";
+        if styled_trail {
+            self.hex_sep("tgt", "trail");
+        } else if self.st.wild && self.rng.chance(1, 8) {
+            self.out.push(b' ');
+        }
+        self.out.push(b'>');
+        self.pending = Some((true, class, dflt));
+    }
+    fn entry(&mut self, d: &Def) {
+        self.code(d.len, d.lo, "opnd", Dflt::Sp0);
+        if !d.char_kind {
+            self.code(d.len, d.hi, "opnd", Dflt::Sp0);
+        }
+        match &d.t {
+            Tgt::Str(u) => self.units(u, "ent", Dflt::Eol),
+            Tgt::Arr(a) => {
+                self.tok(b"[", "arr", Dflt::Sp0);
+                for e in a {
+                    self.units(e, "arr", Dflt::Sp1);
+                }
+                // the gap before "]" may be empty as the code is
+                if let Some(p) = self.pending.as_mut() {
+                    p.2 = Dflt::Sp0;
+                }
+                self.tok(b"]", "ent", Dflt::Eol);
+            }
+        }
+    }
+    fn section(&mut self, kind_char: bool, defs: &[Def]) {
+        let word: &[u8] = if kind_char { b"bfchar" } else { b"bfrange" };
+        self.tok(format!("{}", defs.len()).as_bytes(), "cnt", Dflt::Sp1);
+        self.tok(&[b"begin", word].concat(), "op", Dflt::Eol);
+        for d in defs {
+            self.entry(d);
+        }
+        self.tok(&[b"end", word].concat(), "end", Dflt::Eol);
+    }
 }
 
-fn render(rng: &mut Rng, layout: &[Space], defs: &[Def], arr_sep: Option<&'static [u8]>) -> Vec<u8> {
-    let st = Style { hexcase: rng.below(3), wild: rng.chance(2, 3), arr_sep };
-    let mut o: Vec<u8> = vec![];
-    // header
-    match rng.below(4) {
-        0 => o.extend_from_slice(b"/CIDInit /ProcSet findresource begin\n"),
-        1 => o.extend_from_slice(b"%!PS-Adobe-3.0 Resource-CMap\n%%DocumentNeededResources: ProcSet (CIDInit)\n/CIDInit /ProcSet findresource begin\r\n"),
-        2 => o.extend_from_slice(b"/CIDInit/Procset findresource begin\n"),
-        _ => o.extend_from_slice(b"\n \t/CIDInit\t/ProcSet  findresource \tbegin \n\n"),
-    }
-    o.extend_from_slice(*rng.pick(&[&b"12 dict begin\n"[..], b"12  dict\tbegin\r\n", b"10 dict begin \n"]));
-    o.extend_from_slice(*rng.pick(&[&b"begincmap\n"[..], b"begincmap\r\n", b"begincmap % start\n"]));
-    let sysinfo: &[u8] = *rng.pick(&[
-        &b"/CIDSystemInfo << /Registry (Adobe) /Ordering (UCS) /Supplement 0 >> def\n"[..],
-        b"/CIDSystemInfo\n<< /Registry (Adobe)\n/Ordering (UCS)\n/Supplement 0\n>> def\n",
-        b"/CIDSystemInfo 3 dict dup begin\n  /Registry (Adobe) def\n  /Ordering (UCS) def\n  /Supplement 0 def\nend def\n",
-    ]);
-    let name: &[u8] = *rng.pick(&[&b"/CMapName /Adobe-Identity-UCS def\n"[..], b"/CMapName/F1+0 def\r\n"]);
-    let typ: &[u8] = *rng.pick(&[&b"/CMapType 2 def\n"[..], b"/CMapType  2\tdef\n\n"]);
-    let mut meta: Vec<&[u8]> = vec![sysinfo, name, typ];
-    rng.shuffle(&mut meta);
-    if rng.chance(1, 5) {
-        meta.truncate(1 + rng.below(3));
-    }
-    for m in meta {
-        o.extend_from_slice(m);
-    }
-    // code space ranges (one section, or one section per length)
-    let split_cs = layout.len() > 1 && rng.chance(1, 3);
-    let cs_entry = |rng: &mut Rng, sp: &Space, o: &mut Vec<u8>| {
-        let lo = (sp.f_lo as u32) << (8 * (sp.len - 1));
-        let hi = if sp.len == 1 { sp.f_hi as u32 } else { (((sp.f_hi as u64 + 1) << (8 * (sp.len - 1))) - 1) as u32 };
-        code_tok(rng, &st, sp.len, lo, o);
-        sp0(rng, &st, o);
-        code_tok(rng, &st, sp.len, hi, o);
-        eol(rng, &st, o);
+fn render(rng: &mut Rng, layout: &[Space], defs: &[Def], sty: &Sty) -> Vec<u8> {
+    let st = Style { hexcase: rng.below(3), wild: rng.chance(2, 3), sty: sty.clone() };
+    let head = if sty.k == "head" { sty.a.as_str() } else { "" };
+    let lead: &[u8] = match rng.below(4) {
+        0 => b"%!PS-Adobe-3.0 Resource-CMap\n%%DocumentNeededResources: ProcSet (CIDInit)\n",
+        1 => b"\n \t",
+        _ => b"",
     };
-    if split_cs {
-        for sp in layout {
-            o.extend_from_slice(b"1 begincodespacerange\n");
-            cs_entry(rng, sp, &mut o);
-            o.extend_from_slice(b"endcodespacerange\n");
+    let split_cs = layout.len() > 1 && rng.chance(1, 3);
+    let procset: &[u8] = if rng.chance(1, 4) { b"/Procset" } else { b"/ProcSet" };
+    let dictn: &[u8] = if rng.chance(1, 3) { b"10" } else { b"12" };
+    let sysinfo_dup = head == "dictdup" || (head.is_empty() && rng.chance(1, 3));
+    let sysinfo_lines = rng.chance(1, 2);
+    let cmapname: &[u8] = if rng.chance(1, 2) { b"/Adobe-Identity-UCS" } else { b"/F1+0" };
+    // CMap dictionary entries: every order, 1 to 3 of the known ones (tolerated), or the head style's form
+    let mut meta: Vec<&str> = vec!["sys", "name", "type"];
+    match head {
+        "order" => meta = vec!["type", "sys", "name"],
+        "dictdup" => {}
+        "wmode" => meta.push("wmode"),
+        "version" => meta.insert(2, "version"),
+        "xuid" => meta.push("xuid"),
+        "uidoffset" => meta.insert(0, "uidoffset"),
+        _ => {
+            rng.shuffle(&mut meta);
+            if rng.chance(1, 5) {
+                let keep = 1 + rng.below(3);
+                meta.truncate(keep);
+            }
         }
-    } else {
-        o.extend_from_slice(format!("{} begincodespacerange", layout.len()).as_bytes());
-        eol(rng, &st, &mut o);
-        for sp in layout {
-            cs_entry(rng, sp, &mut o);
-        }
-        o.extend_from_slice(b"endcodespacerange");
-        eol(rng, &st, &mut o);
     }
     // sections: consecutive entries of one kind, cut at random points, never more than 100 entries
+    let mut cuts: Vec<(usize, usize)> = vec![];
     let mut i = 0;
     while i < defs.len() {
         let kind = defs[i].char_kind;
@@ -554,32 +665,138 @@ fn render(rng: &mut Rng, layout: &[Space], defs: &[Def], arr_sep: Option<&'stati
         while j < defs.len() && defs[j].char_kind == kind && j - i < 100 {
             j += 1;
         }
-        // optional earlier cut
         if j - i > 1 && rng.chance(1, 3) {
             j = i + 1 + rng.below(j - i);
         }
-        let word: &[u8] = if kind { b"bfchar" } else { b"bfrange" };
-        o.extend_from_slice(format!("{}", j - i).as_bytes());
-        sp1(rng, &st, &mut o);
-        o.extend_from_slice(b"begin");
-        o.extend_from_slice(word);
-        eol(rng, &st, &mut o);
-        for d in &defs[i..j] {
-            entry(rng, &st, d, &mut o);
-        }
-        o.extend_from_slice(b"end");
-        o.extend_from_slice(word);
-        eol(rng, &st, &mut o);
+        cuts.push((i, j));
         i = j;
     }
-    o.extend_from_slice(b"endcmap");
-    eol(rng, &st, &mut o);
-    o.extend_from_slice(b"CMapName currentdict /CMap defineresource pop");
-    eol(rng, &st, &mut o);
-    o.extend_from_slice(b"end");
-    eol(rng, &st, &mut o);
-    o.extend_from_slice(*rng.pick(&[&b"end\n"[..], b"end", b"end \r\n\n"]));
-    o
+    let mut em = Em { out: lead.to_vec(), rng, st: &st, pending: None };
+    em.tok(b"/CIDInit", "prolog", Dflt::Sp0);
+    em.tok(procset, "prolog", Dflt::Sp1);
+    em.tok(b"findresource", "prolog", Dflt::Sp1);
+    em.tok(b"begin", "prolog", Dflt::Eol);
+    em.tok(dictn, "prolog", Dflt::Sp1);
+    em.tok(b"dict", "prolog", Dflt::Sp1);
+    em.tok(b"begin", "prolog", Dflt::Eol);
+    em.tok(b"begincmap", "prolog", Dflt::Eol);
+    for m in meta {
+        match m {
+            "sys" => {
+                em.tok(b"/CIDSystemInfo", "meta", Dflt::Eol);
+                if sysinfo_dup {
+                    em.tok(b"3 dict dup begin\n  /Registry (Adobe) def\n  /Ordering (UCS) def\n  /Supplement 0 def\nend", "meta", Dflt::Eol);
+                } else if sysinfo_lines {
+                    em.tok(b"<< /Registry (Adobe)\n/Ordering (UCS)\n/Supplement 0\n>>", "meta", Dflt::Eol);
+                } else {
+                    em.tok(b"<< /Registry (Adobe) /Ordering (UCS) /Supplement 0 >>", "meta", Dflt::Eol);
+                }
+                em.tok(b"def", "meta", Dflt::Eol);
+            }
+            "name" => {
+                em.tok(b"/CMapName", "meta", Dflt::Sp0);
+                em.tok(cmapname, "meta", Dflt::Sp1);
+                em.tok(b"def", "meta", Dflt::Eol);
+            }
+            "type" => {
+                em.tok(b"/CMapType", "meta", Dflt::Sp1);
+                em.tok(b"2", "meta", Dflt::Sp1);
+                em.tok(b"def", "meta", Dflt::Eol);
+            }
+            other => {
+                let (k, v): (&[u8], &[u8]) = match other {
+                    "wmode" => (b"/WMode", b"0"),
+                    "version" => (b"/CMapVersion", b"1.000"),
+                    "xuid" => (b"/XUID", b"[1 10 25404 9999]"),
+                    _ => (b"/UIDOffset", b"0"),
+                };
+                em.tok(k, "meta", Dflt::Sp1);
+                em.tok(v, "meta", Dflt::Sp1);
+                em.tok(b"def", "meta", Dflt::Eol);
+            }
+        }
+    }
+    // code space ranges (one section, or one section per length)
+    let groups: Vec<Vec<&Space>> = if split_cs { layout.iter().map(|s| vec![s]).collect() } else { vec![layout.iter().collect()] };
+    for g in groups {
+        em.tok(format!("{}", g.len()).as_bytes(), "cs.cnt", Dflt::Sp1);
+        em.tok(b"begincodespacerange", "cs.op", Dflt::Eol);
+        for sp in g {
+            let lo = (sp.f_lo as u32) << (8 * (sp.len - 1));
+            let hi = if sp.len == 1 { sp.f_hi as u32 } else { (((sp.f_hi as u64 + 1) << (8 * (sp.len - 1))) - 1) as u32 };
+            em.code(sp.len, lo, "cs.pair", Dflt::Sp0);
+            em.code(sp.len, hi, "cs.ent", Dflt::Eol);
+        }
+        em.tok(b"endcodespacerange", "cs.end", Dflt::Eol);
+    }
+    let empty = if sty.k == "empty" { sty.a.as_str() } else { "" };
+    match empty {
+        "char.first" => em.section(true, &[]),
+        "range.first" => em.section(false, &[]),
+        _ => {}
+    }
+    for (i, j) in cuts {
+        em.section(defs[i].char_kind, &defs[i..j]);
+    }
+    match empty {
+        "char.last" => em.section(true, &[]),
+        "range.last" => em.section(false, &[]),
+        _ => {}
+    }
+    em.tok(b"endcmap", "trailer", Dflt::Eol);
+    em.tok(b"CMapName", "trailer", Dflt::Sp1);
+    em.tok(b"currentdict", "trailer", Dflt::Sp1);
+    em.tok(b"/CMap", "trailer", Dflt::Sp1);
+    em.tok(b"defineresource", "trailer", Dflt::Sp1);
+    em.tok(b"pop", "trailer", Dflt::Eol);
+    em.tok(b"end", "trailer", Dflt::Eol);
+    em.tok(b"end", "eof", Dflt::Eol);
+    // the last gap (before the end of the stream) may be empty
+    if em.st.sty.k == "gap" && em.st.sty.a == "eof" {
+        em.flush_gap(None);
+    } else {
+        let tail: &[u8] = *em.rng.pick(&[&b"\n"[..], b"", b" \r\n\n"]);
+        em.pending = None;
+        em.out.extend_from_slice(tail);
+    }
+    em.out
+}
+
+const GAP_CLASSES: [&str; 15] = ["prolog", "meta", "cs.cnt", "cs.op", "cs.pair", "cs.ent", "cs.end", "cnt", "op", "opnd", "ent", "arr", "end", "trailer", "eof"];
+const WS_ATOMS: [&str; 7] = ["sp", "tab", "lf", "cr", "crlf", "ff", "nul"];
+
+/// one random style of the universe of CMap!AllStyles (plus longer random separators) and the font form that goes with it
+fn draw_style(rng: &mut Rng, one_byte_only: bool) -> (Sty, &'static str) {
+    let tolerated_forms = ["absent", "Identity-H", "Identity-V", "dict.diff", "dict.base.diff", "dictref", "cmapstream"];
+    let mut form: &'static str = *rng.pick(&tolerated_forms);
+    let mk = |k: &str, a: &str, b: &str, s: Vec<String>| Sty { k: k.into(), a: a.into(), b: b.into(), s };
+    let sty = match rng.below(12) {
+        0..=4 => canon(),
+        5..=7 => {
+            let n = [0usize, 1, 1, 1, 2, 3][rng.below(6)];
+            let s: Vec<String> = (0..n).map(|_| if rng.chance(1, 6) { "cmt".to_string() } else { rng.pick(&WS_ATOMS).to_string() }).collect();
+            mk("gap", *rng.pick(&GAP_CLASSES), "", s)
+        }
+        8 => {
+            let w = if rng.chance(1, 2) { "src" } else { "tgt" };
+            let p = if w == "src" { *rng.pick(&["lead", "nib", "byte", "trail"]) } else { *rng.pick(&["lead", "nib", "byte", "unit", "trail"]) };
+            let n = 1 + rng.below(2);
+            mk("hex", w, p, (0..n).map(|_| rng.pick(&WS_ATOMS).to_string()).collect())
+        }
+        9 => mk("empty", *rng.pick(&["char.first", "range.first", "char.last", "range.last"]), "", vec![]),
+        10 => mk("head", *rng.pick(&["dictdup", "order", "wmode", "version", "xuid", "uidoffset"]), "", vec![]),
+        _ => {
+            loop {
+                form = *rng.pick(&FONT_FORMS);
+                let base = matches!(form, "StandardEncoding" | "MacRomanEncoding" | "WinAnsiEncoding" | "MacExpertEncoding");
+                if !base || one_byte_only {
+                    break;
+                }
+            }
+            mk("font", form, "", vec![])
+        }
+    };
+    (sty, form)
 }
 
 fn def_json(d: &Def) -> Value {
@@ -652,20 +869,14 @@ fn record(args: &[String]) {
     let mut rng = Rng::new(seed ^ 0xC15);
     let corners = if arg_u64(args, "--corners", 1) > 0 { corner_tables() } else { vec![] };
     let nc = corners.len() as u64;
-    // grammar probes: the array corner table once more with "" and with a line end between the elements
-    let probes: u64 = if nc > 0 { 2 } else { 0 };
-    let total = n + nc + probes;
+    let total = n + nc;
     for r in 0..total {
         let big = r < n && r % 16 == 15;
-        let arr_sep: Option<&'static [u8]> = if r < n + nc { None } else if r == n + nc { Some(b"") } else { Some(b"\n") };
-        let (layout, defs) = if r < n {
-            gen_table(&mut rng, big)
-        } else if r < n + nc {
-            corners[(r - n) as usize].clone()
-        } else {
-            corners[3].clone()
-        };
-        let text = render(&mut rng, &layout, &defs, arr_sep);
+        let (layout, defs) = if r < n { gen_table(&mut rng, big) } else { corners[(r - n) as usize].clone() };
+        // one record in two departs from the tolerated spelling / font dictionary in one respect (CMap!sty)
+        let one_byte_only = defs.iter().all(|d| d.len == 1);
+        let (sty, form) = if big { (canon(), "Identity-H") } else { draw_style(&mut rng, one_byte_only) };
+        let text = render(&mut rng, &layout, &defs, &sty);
         // codes: ends and interior points of definitions (all of them are mapped codes)
         let mut codes: Vec<Vec<u8>> = vec![];
         let mut order: Vec<usize> = (0..defs.len()).collect();
@@ -690,13 +901,13 @@ fn record(args: &[String]) {
         if r < n {
             rng.shuffle(&mut codes);
         }
-        let variant = rng.below(6);
-        let res = run_case(&text, &codes, variant);
+        let compress = rng.chance(1, 2);
+        let res = run_case(&text, &codes, form, compress);
         out.put(&json!({
             "defs": defs.iter().map(def_json).collect::<Vec<_>>(),
-            "codes": codes, "per": res["per"], "whole": res["whole"], "err": res["err"],
-            "text": String::from_utf8_lossy(&text), "variant": variant, "big": big, "corner": r >= n,
-            "gram": if arr_sep.is_some() { "array-ws" } else { "" },
+            "codes": codes, "per": res["per"], "whole": res["whole"], "err": res["err"], "encv": res["encv"],
+            "text": String::from_utf8_lossy(&text).replace('\0', "\u{2400}"), "big": big, "corner": r >= n,
+            "sty": sty_json(&sty), "font": form,
         }));
     }
     out.finish();
